@@ -7,8 +7,10 @@
 //! `allow_dubious_hosts = true` (localhost + explicit port).  Nothing is generated at run time.
 //!
 //! The server runs on its own threads (one acceptor, one per connection), plain blocking rustls: the RRDP
-//! collector uses reqwest's blocking client, which owns its own runtime.  Every response carries
-//! `Connection: close`, so one request = one connection and the log order is the request order.
+//! collector uses reqwest's blocking client, which owns its own runtime.  Connections are kept alive (a new
+//! connection per request costs a name lookup and a handshake each) except after a response whose body is
+//! shorter than declared; the collector issues its requests one after the other, so the log order is the
+//! request order.
 //! Routes are keyed by the request path; the harness gives every case its own path prefix, so any number of
 //! cases can share one server concurrently.
 use std::collections::HashMap;
@@ -123,43 +125,52 @@ fn serve(
     tcp: std::net::TcpStream, cfg: Arc<rustls::ServerConfig>,
     routes: Arc<Mutex<HashMap<String, Canned>>>, log: Arc<Mutex<Vec<Request>>>,
 ) -> std::io::Result<()> {
-    tcp.set_read_timeout(Some(std::time::Duration::from_secs(30)))?;
+    // an idle kept-alive connection is closed by the client (when its pool drops it), not by a timeout here
+    tcp.set_read_timeout(Some(std::time::Duration::from_secs(3600)))?;
     tcp.set_nodelay(true)?;
     let conn = rustls::ServerConnection::new(cfg).map_err(std::io::Error::other)?;
     let mut tls = rustls::StreamOwned::new(conn, tcp);
     let mut buf: Vec<u8> = Vec::new();
-    let end = loop {
-        if let Some(p) = buf.windows(4).position(|w| w == b"\r\n\r\n") { break p + 4 }
-        let mut b = [0u8; 4096];
-        match tls.read(&mut b) { Ok(0) => return Ok(()), Ok(n) => buf.extend_from_slice(&b[..n]), Err(e) => return Err(e) }
-    };
-    let head = String::from_utf8_lossy(&buf[..end]).to_string();
-    let mut lines = head.split("\r\n");
-    let path = lines.next().unwrap_or("").split_whitespace().nth(1).unwrap_or("/").to_string();
-    let headers: Vec<(String, String)> = lines.filter_map(|l| {
-        let (k, v) = l.split_once(':')?;
-        Some((k.trim().to_ascii_lowercase(), v.trim().to_string()))
-    }).collect();
-    let canned = routes.lock().unwrap().get(&path).cloned().unwrap_or_else(|| Canned::status(404));
-    log.lock().unwrap().push(Request { path, headers });
-    let mut out = format!("HTTP/1.1 {} {}\r\nConnection: close\r\n", canned.status, reason(canned.status));
-    for (k, v) in &canned.headers { out.push_str(&format!("{}: {}\r\n", k, v)); }
-    if canned.status == 304 || canned.status == 204 {
-        out.push_str("\r\n");
-        tls.write_all(out.as_bytes())?;
+    loop {
+        let end = loop {
+            if let Some(p) = buf.windows(4).position(|w| w == b"\r\n\r\n") { break p + 4 }
+            let mut b = [0u8; 4096];
+            match tls.read(&mut b) { Ok(0) => return Ok(()), Ok(n) => buf.extend_from_slice(&b[..n]), Err(e) => return Err(e) }
+        };
+        let head = String::from_utf8_lossy(&buf[..end]).to_string();
+        buf.drain(..end);
+        let mut lines = head.split("\r\n");
+        let path = lines.next().unwrap_or("").split_whitespace().nth(1).unwrap_or("/").to_string();
+        let headers: Vec<(String, String)> = lines.filter_map(|l| {
+            let (k, v) = l.split_once(':')?;
+            Some((k.trim().to_ascii_lowercase(), v.trim().to_string()))
+        }).collect();
+        let canned = routes.lock().unwrap().get(&path).cloned().unwrap_or_else(|| Canned::status(404));
+        log.lock().unwrap().push(Request { path, headers });
+        // a body shorter than declared can only be ended by closing the connection
+        let close = canned.declare.is_some();
+        let mut out = format!("HTTP/1.1 {} {}\r\n", canned.status, reason(canned.status));
+        if close { out.push_str("Connection: close\r\n"); }
+        for (k, v) in &canned.headers { out.push_str(&format!("{}: {}\r\n", k, v)); }
+        if canned.status == 304 || canned.status == 204 {
+            out.push_str("\r\n");
+            tls.write_all(out.as_bytes())?;
+        }
+        else {
+            let n = canned.declare.unwrap_or(canned.body.len() as u64);
+            out.push_str(&format!("Content-Type: application/xml\r\nContent-Length: {}\r\n\r\n", n));
+            tls.write_all(out.as_bytes())?;
+            tls.write_all(&canned.body)?;
+        }
+        tls.flush()?;
+        if close {
+            tls.conn.send_close_notify();
+            let _ = tls.flush();
+            let _ = tls.sock.shutdown(std::net::Shutdown::Write);
+            // drain until the peer closes so that the close is orderly
+            let mut sink = [0u8; 512];
+            while let Ok(n) = tls.sock.read(&mut sink) { if n == 0 { break } }
+            return Ok(())
+        }
     }
-    else {
-        let n = canned.declare.unwrap_or(canned.body.len() as u64);
-        out.push_str(&format!("Content-Type: application/xml\r\nContent-Length: {}\r\n\r\n", n));
-        tls.write_all(out.as_bytes())?;
-        tls.write_all(&canned.body)?;
-    }
-    tls.flush()?;
-    tls.conn.send_close_notify();
-    let _ = tls.flush();
-    let _ = tls.sock.shutdown(std::net::Shutdown::Write);
-    // drain until the peer closes so that the close is orderly
-    let mut sink = [0u8; 512];
-    while let Ok(n) = tls.sock.read(&mut sink) { if n == 0 { break } }
-    Ok(())
 }
